@@ -12,6 +12,8 @@ pub mod shadow_std {
     pub use ::std::*;
     /// `std::thread_local!` inside a simulated program gives every *simulated* thread its own copy
     pub use shuttle::thread_local;
+    /// the macro `env!` by name (see main.rs): the same definition the generator modules see textually
+    pub(crate) use crate::__env_by_path as env;
 
     pub mod collections {
         pub use super::super::coll::{HashMap, HashSet};
@@ -52,6 +54,7 @@ pub mod shadow_std {
 
     pub mod process {
         pub use super::super::simenv::exit;
+        pub use super::super::simproc::{Child, ChildStderr, ChildStdin, ChildStdout, Command, Stdio};
         pub use ::std::process::*;
     }
 
@@ -1137,6 +1140,294 @@ pub mod simenv {
             w.event("exit", code as u64, 0);
         });
         std::panic::panic_any(ExitRequest(code))
+    }
+}
+
+// =============================================================================================
+// Child processes
+// =============================================================================================
+/// `std::process::Command` inside a simulated run. A real child process with real pipes cannot
+/// live inside the simulation (a blocking `wait`/`read` on the one OS thread all simulated threads
+/// share would stop the world), and what a maintainer's machine has installed is part of the
+/// environment anyway. The only external program a table generator plausibly calls is a source
+/// formatter: `rustfmt` (by that file name, or via `$RUSTFMT`) is modelled as a program that may or
+/// may not be installed (`Decision::Program`) and, when it is, copies its standard input to its
+/// standard output unchanged / leaves the files named on its command line as they are and exits
+/// successfully — formatting is immaterial to the oracle, which reads values, not layout. Every
+/// other program is "not found". A run in which a program turned out to be missing may fail loudly
+/// without being judged (like a stalled run); it may not complete with a different table.
+pub mod simproc {
+    use crate::world;
+    use std::ffi::{OsStr, OsString};
+    use std::io;
+    use std::os::unix::process::ExitStatusExt;
+    use std::path::Path;
+    use std::process::{ExitStatus, Output};
+    use std::sync::{Arc, Mutex};
+
+    #[derive(Default, Debug)]
+    struct PipeState {
+        /// what the program wrote to the child's stdin so far
+        input: Vec<u8>,
+        stdin_closed: bool,
+        /// how much of the (identity) output has been read back
+        read_pos: usize,
+    }
+    type Pipe = Arc<Mutex<PipeState>>;
+
+    #[derive(Debug, Clone, Copy, PartialEq, Eq)]
+    enum Kind {
+        Inherit,
+        Piped,
+        Null,
+    }
+    #[derive(Debug)]
+    pub struct Stdio(Kind);
+    impl Stdio {
+        pub fn piped() -> Stdio {
+            Stdio(Kind::Piped)
+        }
+        pub fn inherit() -> Stdio {
+            Stdio(Kind::Inherit)
+        }
+        pub fn null() -> Stdio {
+            Stdio(Kind::Null)
+        }
+    }
+    impl From<super::simfs::File> for Stdio {
+        fn from(_: super::simfs::File) -> Stdio {
+            Stdio(Kind::Null)
+        }
+    }
+
+    #[derive(Debug)]
+    pub struct Command {
+        program: OsString,
+        args: Vec<OsString>,
+        stdin: Kind,
+        stdout: Kind,
+    }
+    impl Command {
+        pub fn new<S: AsRef<OsStr>>(program: S) -> Command {
+            Command {
+                program: program.as_ref().to_os_string(),
+                args: vec![],
+                stdin: Kind::Inherit,
+                stdout: Kind::Inherit,
+            }
+        }
+        pub fn arg<S: AsRef<OsStr>>(&mut self, a: S) -> &mut Command {
+            self.args.push(a.as_ref().to_os_string());
+            self
+        }
+        pub fn args<I, S>(&mut self, a: I) -> &mut Command
+        where
+            I: IntoIterator<Item = S>,
+            S: AsRef<OsStr>,
+        {
+            for x in a {
+                self.args.push(x.as_ref().to_os_string());
+            }
+            self
+        }
+        pub fn env<K: AsRef<OsStr>, V: AsRef<OsStr>>(&mut self, _k: K, _v: V) -> &mut Command {
+            self
+        }
+        pub fn envs<I, K, V>(&mut self, _vars: I) -> &mut Command
+        where
+            I: IntoIterator<Item = (K, V)>,
+            K: AsRef<OsStr>,
+            V: AsRef<OsStr>,
+        {
+            self
+        }
+        pub fn env_remove<K: AsRef<OsStr>>(&mut self, _k: K) -> &mut Command {
+            self
+        }
+        pub fn env_clear(&mut self) -> &mut Command {
+            self
+        }
+        pub fn current_dir<P: AsRef<Path>>(&mut self, _p: P) -> &mut Command {
+            self
+        }
+        pub fn stdin<T: Into<Stdio>>(&mut self, s: T) -> &mut Command {
+            self.stdin = s.into().0;
+            self
+        }
+        pub fn stdout<T: Into<Stdio>>(&mut self, s: T) -> &mut Command {
+            self.stdout = s.into().0;
+            self
+        }
+        pub fn stderr<T: Into<Stdio>>(&mut self, _s: T) -> &mut Command {
+            self
+        }
+        pub fn get_program(&self) -> &OsStr {
+            &self.program
+        }
+        fn is_formatter(&self) -> bool {
+            Path::new(&self.program)
+                .file_stem()
+                .and_then(|s| s.to_str())
+                .map(|s| s == "rustfmt")
+                .unwrap_or(false)
+        }
+        pub fn spawn(&mut self) -> io::Result<Child> {
+            let name = self.program.to_string_lossy().to_string();
+            let available = self.is_formatter() && world::with(|w| w.decide_program(&name));
+            if !self.is_formatter() {
+                world::with(|w| {
+                    w.missing_program = true;
+                    w.event("spawn_unknown_program", 0, 0);
+                });
+            }
+            if !available {
+                return Err(io::Error::new(io::ErrorKind::NotFound, "No such file or directory (simulated environment)"));
+            }
+            let pipe: Pipe = Arc::new(Mutex::new(PipeState::default()));
+            if self.stdin != Kind::Piped {
+                // nothing will ever be written: the formatter sees an empty input at once
+                pipe.lock().unwrap().stdin_closed = true;
+            }
+            Ok(Child {
+                stdin: if self.stdin == Kind::Piped { Some(ChildStdin { pipe: pipe.clone() }) } else { None },
+                stdout: if self.stdout == Kind::Piped { Some(ChildStdout { pipe: pipe.clone() }) } else { None },
+                stderr: None,
+                pipe,
+                inherit_stdout: self.stdout == Kind::Inherit,
+            })
+        }
+        pub fn output(&mut self) -> io::Result<Output> {
+            self.stdin = Kind::Null;
+            self.stdout = Kind::Piped;
+            self.spawn()?.wait_with_output()
+        }
+        pub fn status(&mut self) -> io::Result<ExitStatus> {
+            self.spawn()?.wait()
+        }
+    }
+
+    pub struct ChildStdin {
+        pipe: Pipe,
+    }
+    impl io::Write for ChildStdin {
+        fn write(&mut self, buf: &[u8]) -> io::Result<usize> {
+            self.pipe.lock().unwrap().input.extend_from_slice(buf);
+            Ok(buf.len())
+        }
+        fn flush(&mut self) -> io::Result<()> {
+            Ok(())
+        }
+    }
+    impl Drop for ChildStdin {
+        fn drop(&mut self) {
+            self.pipe.lock().unwrap().stdin_closed = true;
+        }
+    }
+    impl std::fmt::Debug for ChildStdin {
+        fn fmt(&self, f: &mut std::fmt::Formatter) -> std::fmt::Result {
+            write!(f, "ChildStdin")
+        }
+    }
+
+    /// wait until the program has closed the child's stdin (the formatter reads everything before
+    /// it writes anything); under the thread scheduler other simulated threads run meanwhile
+    fn wait_for_input_end(pipe: &Pipe) -> io::Result<()> {
+        loop {
+            if pipe.lock().unwrap().stdin_closed {
+                return Ok(());
+            }
+            let under = world::with(|w| w.under_shuttle);
+            if !under || super::simthread::timed_wait_step().is_some() {
+                // nobody else can close it: in reality the program would hang here, waiting for a
+                // child that waits for it
+                panic!("deadlock: reading the output of a child process whose standard input is still open and that nobody else can close");
+            }
+        }
+    }
+
+    pub struct ChildStdout {
+        pipe: Pipe,
+    }
+    impl io::Read for ChildStdout {
+        fn read(&mut self, buf: &mut [u8]) -> io::Result<usize> {
+            wait_for_input_end(&self.pipe)?;
+            let mut p = self.pipe.lock().unwrap();
+            let n = (p.input.len() - p.read_pos).min(buf.len());
+            let pos = p.read_pos;
+            buf[..n].copy_from_slice(&p.input[pos..pos + n]);
+            p.read_pos += n;
+            Ok(n)
+        }
+    }
+    impl std::fmt::Debug for ChildStdout {
+        fn fmt(&self, f: &mut std::fmt::Formatter) -> std::fmt::Result {
+            write!(f, "ChildStdout")
+        }
+    }
+    #[derive(Debug)]
+    pub struct ChildStderr;
+    impl io::Read for ChildStderr {
+        fn read(&mut self, _buf: &mut [u8]) -> io::Result<usize> {
+            Ok(0)
+        }
+    }
+
+    #[derive(Debug)]
+    pub struct Child {
+        pub stdin: Option<ChildStdin>,
+        pub stdout: Option<ChildStdout>,
+        pub stderr: Option<ChildStderr>,
+        pipe: Pipe,
+        inherit_stdout: bool,
+    }
+    impl Child {
+        pub fn id(&self) -> u32 {
+            4242
+        }
+        pub fn kill(&mut self) -> io::Result<()> {
+            Ok(())
+        }
+        fn finish(&mut self) -> io::Result<()> {
+            // like std: waiting closes the child's stdin first
+            drop(self.stdin.take());
+            wait_for_input_end(&self.pipe)?;
+            if self.inherit_stdout {
+                // the formatter writes to the generator's own stdout
+                let mut p = self.pipe.lock().unwrap();
+                let rest = p.input[p.read_pos..].to_vec();
+                p.read_pos = p.input.len();
+                drop(p);
+                super::emit_str(&String::from_utf8_lossy(&rest));
+            }
+            Ok(())
+        }
+        pub fn wait(&mut self) -> io::Result<ExitStatus> {
+            self.finish()?;
+            Ok(ExitStatus::from_raw(0))
+        }
+        pub fn try_wait(&mut self) -> io::Result<Option<ExitStatus>> {
+            if self.pipe.lock().unwrap().stdin_closed {
+                self.wait().map(Some)
+            } else {
+                Ok(None)
+            }
+        }
+        pub fn wait_with_output(mut self) -> io::Result<Output> {
+            drop(self.stdin.take());
+            wait_for_input_end(&self.pipe)?;
+            let mut out = vec![];
+            if self.stdout.take().is_some() {
+                let mut p = self.pipe.lock().unwrap();
+                out = p.input[p.read_pos..].to_vec();
+                p.read_pos = p.input.len();
+            }
+            self.finish()?;
+            Ok(Output {
+                status: ExitStatus::from_raw(0),
+                stdout: out,
+                stderr: vec![],
+            })
+        }
     }
 }
 
